@@ -72,7 +72,7 @@ class MarkovChainSDE(Process):
     def simulate_one_path(self) -> StochasticPath:
         mc_path: StochasticJumpPath = self.markov_chain.simulate_one_path()
 
-        zi = np.array([self.model.x0]).T
+        zi = np.array([self.model.x0], dtype=float).T
 
         nb_of_jumps = mc_path.jump_times.size
         dimension = self.model.dimension()
